@@ -88,18 +88,23 @@ func (ps *SchemaSet) messageSchema(src protoreflect.MessageDescriptor) (RootSche
 	}
 
 	schemaPackage.Schemas[nameInPackage] = placeholder
+	ps.build.flattenChain = []string{placeholder.FullName()}
 
 	msgOptions := proto.GetExtension(src.Options(), ext_j5pb.E_Message).(*ext_j5pb.MessageOptions)
 
 	isOneofWrapper := isOneofWrapper(src, msgOptions)
-	var err error
 	if isOneofWrapper {
-		placeholder.To, err = schemaPackage.buildOneofSchema(src, msgOptions.GetOneof())
+		built, err := schemaPackage.buildOneofSchema(src, msgOptions.GetOneof())
+		if err != nil {
+			return nil, err
+		}
+		placeholder.To = built
 	} else {
-		placeholder.To, err = schemaPackage.buildObjectSchema(src, msgOptions.GetObject())
-	}
-	if err != nil {
-		return nil, err
+		built, err := schemaPackage.buildObjectSchema(src, msgOptions.GetObject())
+		if err != nil {
+			return nil, err
+		}
+		placeholder.To = built
 	}
 	return placeholder.To, nil
 }
@@ -1216,21 +1221,33 @@ func buildMessageFieldSchema(pkg *Package, context fieldContext, src protoreflec
 	isOneofWrapper := isOneofWrapper(msg, msgOptions)
 
 	ref, didExist := newRefPlaceholder(pkg.PackageSet, msg)
-	if didExist && flatten && ref.To == nil {
-		// The message is still being built further up the stack: flattening
-		// it here would inline an object into itself without end.
+	build := pkg.PackageSet.buildInProgress()
+	if flatten && build.inFlattenChain(ref.FullName()) {
+		// Flattening an object into itself (directly or through other
+		// flattened objects) would inline its properties without end.
 		return nil, fmt.Errorf("field %s flattens %s recursively", src.Name(), msg.FullName())
 	}
 	if !didExist {
-		var err error
-		if isOneofWrapper {
-			ref.To, err = pkg.buildOneofSchema(msg, msgOptions.GetOneof())
+		outerChain := build.flattenChain
+		if flatten {
+			build.flattenChain = append(outerChain[:len(outerChain):len(outerChain)], ref.FullName())
 		} else {
-			ref.To, err = pkg.buildObjectSchema(msg, msgOptions.GetObject())
+			build.flattenChain = []string{ref.FullName()}
 		}
-		if err != nil {
-			return nil, err
+		if isOneofWrapper {
+			built, err := pkg.buildOneofSchema(msg, msgOptions.GetOneof())
+			if err != nil {
+				return nil, err
+			}
+			ref.To = built
+		} else {
+			built, err := pkg.buildObjectSchema(msg, msgOptions.GetObject())
+			if err != nil {
+				return nil, err
+			}
+			ref.To = built
 		}
+		build.flattenChain = outerChain
 
 		if err := ref.check(); err != nil {
 			return nil, err
